@@ -180,13 +180,65 @@ def maybe_unbound(f: Func) -> list[tuple[ast.Name, str]]:
         for r in roots:
             comp |= comprehension_names(r)
         for r in roots:
-            stack = [r]
+            # evaluation order inside one expression: a name bound by `:=` in the test of a conditional expression, in an
+            # earlier operand of and/or, or in an `if` clause of a comprehension is assigned where the later part runs
+            stack = [(r, frozenset())]
             while stack:
-                x = stack.pop()
+                x, okn = stack.pop()
                 if isinstance(x, (ast.FunctionDef, ast.AsyncFunctionDef, ast.Lambda, ast.ClassDef)):
                     continue
                 if isinstance(x, ast.Name) and isinstance(x.ctx, (ast.Load, ast.Del)) or (isinstance(x, ast.Name) and isinstance(n.ast, ast.AugAssign) and x is n.ast.target):
-                    if x.id in inn[n] and x.id not in comp:
+                    if x.id in inn[n] and x.id not in comp and x.id not in okn:
                         bad.append((x, f"`{x.id}` may be unassigned here"))
-                stack.extend(ast.iter_child_nodes(x))
+                if isinstance(x, ast.IfExp):
+                    stack.append((x.test, okn))
+                    stack.append((x.body, okn | walrus_bound(x.test, True)))
+                    stack.append((x.orelse, okn | walrus_bound(x.test, False)))
+                    continue
+                if isinstance(x, ast.BoolOp):
+                    acc = okn
+                    for v in x.values:
+                        stack.append((v, acc))
+                        acc = acc | walrus_bound(v, isinstance(x.op, ast.And))
+                    continue
+                if isinstance(x, (ast.GeneratorExp, ast.ListComp, ast.SetComp, ast.DictComp)):
+                    acc = okn
+                    for g in x.generators:
+                        stack.append((g.iter, acc))
+                        for c in g.ifs:
+                            stack.append((c, acc))
+                            acc = acc | walrus_bound(c, True)
+                    for e_ in ([x.key, x.value] if isinstance(x, ast.DictComp) else [x.elt]):
+                        stack.append((e_, acc))
+                    continue
+                if isinstance(x, ast.NamedExpr):
+                    stack.append((x.value, okn))
+                    continue
+                for ch in ast.iter_child_nodes(x):
+                    stack.append((ch, okn))
     return bad
+
+
+def walrus_bound(test: ast.AST, truth: bool) -> frozenset:
+    """names certainly bound by `:=` once `test` has been evaluated with the given truth value"""
+    if isinstance(test, ast.UnaryOp) and isinstance(test.op, ast.Not):
+        return walrus_bound(test.operand, not truth)
+    if isinstance(test, ast.BoolOp):
+        all_run = (isinstance(test.op, ast.And) and truth) or (isinstance(test.op, ast.Or) and not truth)
+        vals = test.values if all_run else test.values[:1]
+        out = frozenset()
+        for v in vals:
+            out |= walrus_bound(v, truth if all_run else truth) if all_run else (walrus_bound(v, True) & walrus_bound(v, False))
+        return out
+    if isinstance(test, ast.IfExp):
+        return walrus_bound(test.test, True) & walrus_bound(test.test, False)
+    out = set()
+    stack = [test]
+    while stack:
+        x = stack.pop()
+        if isinstance(x, (ast.Lambda, ast.GeneratorExp, ast.ListComp, ast.SetComp, ast.DictComp, ast.BoolOp, ast.IfExp)):
+            continue
+        if isinstance(x, ast.NamedExpr) and isinstance(x.target, ast.Name):
+            out.add(x.target.id)
+        stack.extend(ast.iter_child_nodes(x))
+    return frozenset(out)
